@@ -24,6 +24,7 @@ def run(m: Model, r: Report, tier: str) -> None:
     r.rule("R4", "the session only changes to a sub-function of DiagnosticSessionControl that the active session offers (or back to 1)", floor=4)
     r.rule("R5", "request parsing falls back to RawRequest for every Exception; the connection loop answers each request with response.pdu", floor=3)
     r.rule("R7", "the client's matcher, evaluated abstractly on (parsed request, emitted response) with equal echoed bytes, never refuses", floor=8)
+    r.rule("R8", "random payloads respect the length bounds their callers rely on (min_len <= length <= max_len for every draw)", floor=2)
     r.rule("R6", "the codec obligations (W∘R byte identity, no raising serialiser) hold for every class the server can emit", floor=8)
 
     reg = Registry(m)
@@ -204,13 +205,44 @@ def run(m: Model, r: Report, tier: str) -> None:
     asrt = [f.qualname for f in us.methods.values() if "Virtual ECU in unsupported session" in ast.unparse(f.node)]
     r.extra["invariant_asserted_in"] = asrt
 
+    # ---------------------------------------------------------------- R8
+    from sa import miniterp
+    rp = m.require_function(f"{SRV}.RNG.random_payload")
+    rp_params = rp.params()[1:]
+    if rp_params[:2] != ["min_len", "max_len"]:
+        raise AnalysisError(f"{rp.qualname}: parameters are {rp_params}")
+    bad8 = []
+    n8 = 0
+    for draw in (0.0, 0.4, 0.6, 3.2, 7.7, 300.2):
+        def oracle(call: ast.Call, env, draw=draw):
+            return draw if ast.unparse(call.func) in ("self.expovariate", "self.random", "self.gauss", "self.uniform") else NotImplemented
+        for mn in (0, 1, 3, 12):
+            for mx in (None, 0, 1, 2, 8, 50):
+                if mx is not None and mx < mn:
+                    continue
+                ret, env = miniterp.run_function(rp.node, {"self": None, "min_len": mn, "max_len": mx}, oracle)
+                if ret is None or not (isinstance(ret.value, ast.Call) and ast.unparse(ret.value.func) == "bytes" and ret.value.args
+                                       and isinstance(ret.value.args[0], ast.GeneratorExp) and len(ret.value.args[0].generators) == 1
+                                       and isinstance(ret.value.args[0].generators[0].iter, ast.Call) and ast.unparse(ret.value.args[0].generators[0].iter.func) == "range"
+                                       and len(ret.value.args[0].generators[0].iter.args) == 1):
+                    raise AnalysisError(f"{rp.qualname}: the returned value is not bytes(<draw> for _ in range(<length>))")
+                ln = miniterp.eval_expr(ret.value.args[0].generators[0].iter.args[0], env, oracle)
+                n8 += 1
+                if ln < mn or (mx is not None and ln > mx):
+                    bad8.append(f"draw={draw}, min_len={mn}, max_len={mx} -> {ln} bytes")
+    r.check(not bad8, "R8", f"{rp.qualname}#length-bounds",
+            f"random_payload violates its bounds for {len(bad8)} of {n8} evaluated (draw, min_len, max_len) combinations, e.g. {bad8[:2]}: "
+            "read_data_by_identifier / input_output_control rely on min_len=1 (an empty dataRecord is a malformed response, or the constructor raises)", loc=rp.loc)
+    users = [f for f in m.require_class(f"{SRV}.RandomUDSServer").methods.values() if f.name in ("read_data_by_identifier", "input_output_control_by_identifier")]
+    for f in users:
+        calls_ = [n for n in ast.walk(f.node) if isinstance(n, ast.Call) and isinstance(n.func, ast.Attribute) and n.func.attr == "random_payload"]
+        r.check(bool(calls_) and all(any(k.arg == "min_len" and m.try_fold(f.module, k.value) == 1 for k in c.keywords) or
+                                     (c.args and m.try_fold(f.module, c.args[0]) == 1) for c in calls_), "R8", f"{f.qualname}#non-empty-record",
+                "the data record of a positive response must have at least one byte (random_payload(min_len=1))", loc=f.loc)
+
     # ---------------------------------------------------------------- R5
-    pd = m.require_function(f"{SERVICE}.UDSRequest.parse_dynamic")
-    hs = [h for t in ast.walk(pd.node) if isinstance(t, ast.Try) for h in t.handlers]
-    r.check(len(hs) == 1 and hs[0].type is not None and ast.unparse(hs[0].type) in ("Exception", "BaseException") and
-            any(isinstance(s, ast.Return) and ast.unparse(s.value) == "RawRequest(pdu)" for s in hs[0].body), "R5", f"{pd.qualname}#raw-fallback",
-            f"the dynamic request parser catches {[ast.unparse(h.type) if h.type else '<bare>' for h in hs]}: every failure of a typed parser (incl. the "
-            "round-trip AssertionError) must fall back to RawRequest, otherwise the server raises and drops the connection", loc=pd.loc)
+    from sa.uds_rules import parse_dynamic_total
+    parse_dynamic_total(m, r, "R5")
     hr = m.require_function(f"{SRV}.UDSServerTransport.handle_request")
     roles = {}
     for n in walk_no_nested(hr.node):
